@@ -77,6 +77,7 @@ class KernelSim(WorldBase):
         self.kexec = 0
         self.cur_index = 0
         self.sweep = {}
+        self.held_dumps = []
 
     def V(self, prop, oracle, culprit, detail):
         if prop == self.prop:
@@ -101,6 +102,8 @@ class KernelSim(WorldBase):
             flows = K.all_flows(case, g, max_flows=cfg["max_flows"])
             out, ops = K.case_spec(case)
             cut = g.randint(1, max(1, len(flows) - 1)) if g.random() < 0.5 else None
+            if g.random() < 0.35:
+                flows = [dict(fl, always_swizzle=True) for fl in flows]
             for i, flow in enumerate(flows):
                 if cut is not None and i == cut:
                     # the program updates an operand in place between two executions
@@ -189,6 +192,7 @@ class KernelSim(WorldBase):
                     lo = g.randint(0, Kk + off)
                     iv = [lo, g.randint(lo + 1, Kk + off + 2)]
                 idiom = g.choice([1, 2, 3])
+                dstrank = g.choice(["M", "M", "K"])
                 dense_outer = False
                 sp = g.choice([None, 0, 1]) if (idiom == 1 and iv is None) else None
                 if idiom == 3:
@@ -200,7 +204,8 @@ class KernelSim(WorldBase):
                         sp = g.choice([None, 0])
                 for t in (2, 1000, g.choice(THRESHOLDS)):
                     evs.append(["proj", {"dims": [B, Kk], "ent": ent, "off": off, "interval": iv, "idiom": idiom,
-                                         "start_pos": sp, "ncu": t, "dense_outer": idiom == 3 and dense_outer}])
+                                         "start_pos": sp, "ncu": t, "dense_outer": idiom == 3 and dense_outer,
+                                         "dst": dstrank}])
             if False and g.random() < 0.5:
                 # convolution by projection: project_i traces, matched ranks.  DISABLED: under collection the
                 # library needs the source rank matched to the destination rank *before* the destination rank is
@@ -363,6 +368,10 @@ class KernelSim(WorldBase):
     def ev_case(self, case):
         self.case = case
         self.tensors = K.build_tensors(case)
+        out, _ = K.case_spec(case)
+        if out:
+            # the declared, still empty output of the program (used by executions that always swizzle)
+            self.tensors["__Z__"] = Tensor(rank_ids=list(out), shape=[case["shapes"][i] for i in out])
         self.ref = K.dense(case)
         self.snap = {n: ob.snapshot(t) for n, t in self.tensors.items()}
         return {"family": case["family"], "ref_points": len(self.ref)}
@@ -556,7 +565,19 @@ class KernelSim(WorldBase):
         if fired:
             for f in fired:
                 self.fault("fs:" + f[1])
-        dump = copy.deepcopy(Metrics.dump()) if Metrics.dump() is not None else None
+        raw_dump = Metrics.dump()
+        dump = copy.deepcopy(raw_dump) if raw_dump is not None else None
+        if self.prop == "C15":
+            # a program that measures several configurations keeps each report and tabulates them afterwards:
+            # the report of an earlier session stays what it was when a later session begins and runs
+            for n0, held, asread in self.held_dumps:
+                if held != asread:
+                    self.V("C15", "C15.isolated-counts", "session",
+                           f"the report dump() returned after session {n0} read {asread} then; after session {self.nsess} "
+                           f"the same object reads {held}")
+            if raw_dump is not None and end != "abandon":
+                self.held_dumps.append((self.nsess, raw_dump, copy.deepcopy(raw_dump)))
+                self.held_dumps = self.held_dumps[-4:]
         files = {}
         for p in sorted(fs.written):
             if os.path.exists(p):
@@ -846,6 +867,8 @@ class KernelSim(WorldBase):
                 b = Metrics.consumeTrace(rank, typ)
                 # what was delivered, as delivered (the consumer below is free to do what it likes with its rows)
                 batches.setdefault((rank, typ), []).extend([list(row) for row in b])
+                # a consumer may keep the batch objects it was given: what was delivered stays as delivered
+                batches.setdefault("__held__", []).append((rank, typ, b, [list(row) for row in b]))
                 got[(rank, typ)] = b
         # the consumer: the intersection models, fed pairwise with what was just drained
         for (rank, typ), b in got.items():
@@ -862,6 +885,19 @@ class KernelSim(WorldBase):
     def _judge_c16(self, s, out, expect, batches):
         if self.prop != "C16":
             return
+        held = batches.pop("__held__", [])
+        seen = {}
+        for rank, typ, b, asdelivered in held:
+            if [list(r) for r in b] != asdelivered:
+                self.V("C16", "C16.consumable-same-rows", "session",
+                       f"a batch of {rank}-{typ} handed out by consumeTrace() with {len(asdelivered)} rows later held "
+                       f"{len(b)} rows: the library kept writing into a list the consumer already owns")
+            if id(b) in seen and (asdelivered or seen[id(b)]):
+                self.V("C16", "C16.consumable-same-rows", "session",
+                       f"consumeTrace({rank}, {typ}) handed out the same list object twice")
+            seen[id(b)] = bool(asdelivered)
+        if held:
+            self.probe("held_batches_checked")
         if out["err"] or out["end_err"]:
             self.V("C16", "C16.no-exception", "session", f"clean session raised {out['err']} / {out['end_err']}")
             return
@@ -1075,7 +1111,8 @@ class KernelSim(WorldBase):
         prefix = os.path.join(self.scratch, "pj")
         if idiom == 3:
             return self._ev_spiter(a, A, a_b, prefix)
-        inner = "M" if idiom == 1 else "K"
+        dst = a.get("dst", "M")          # the projection may stay on its own rank id (dst == "K")
+        inner = dst if idiom == 1 else "K"
         exp_proj, exp_outer, exp_inner = [], [], []
         got_seq, want_seq = [], []
         err = None
@@ -1109,7 +1146,7 @@ class KernelSim(WorldBase):
                         want_seq.append((b, m, Payload.get(pl)))
                         j += 1
                     kidx += 1
-                kw = {"trans_fn": (lambda k, off=off: k + off), "rank_id": "M"}
+                kw = {"trans_fn": (lambda k, off=off: k + off), "rank_id": dst}
                 if iv is not None:
                     kw["interval"] = iv
                 if idiom == 1:
